@@ -1,5 +1,69 @@
+/- Driver front-end of the Attrs family (C06): (de)serialisation only; it calls the very definitions the
+   theorems of Props/C06.lean are about (`classAttrs`, `instAttrs`, `mro`, `Acyclic`, `NoRepeatedAncestors`)
+   and the pre-fix table `instAttrsLegacy`.
+
+   request : {"h": [{"id": n, "bases": [{"src": n} | {"builtin": name, "attrs": [...], "inst": [...]} | {"unknown": 1}],
+                     "body": [[name, site], ...], "self": [[name, site], ...]}, ...], "c": n}
+   reply   : {"acyclic": b, "norepeat": b, "mro": [{"cls": n} | {"builtin": name}],
+              "cls": [[name, val], ...], "inst": [...], "legacy": [...]}     val = {"site": n} | {"builtin": s} | {"multi": [n]} -/
 import SuppModel.Drv.Util
+import SuppModel.Attrs.Spec
+
 namespace SuppModel.Drv.Attrs
-open Lean SuppModel.Drv
-def handle (_j : Json) : Json := errJson "driver for Attrs not built yet"
+open Lean SuppModel.Drv SuppModel.Attrs
+
+def strList (a : Array Json) : Except String (List String) := a.toList.mapM (·.getStr?)
+
+def baseOfJson (j : Json) : Except String Base := do
+  if let .ok c := jnat j "src" then return .src c
+  if let .ok nm := jstr j "builtin" then
+    let attrs ← strList (← jarr j "attrs")
+    let inst ← strList (← jarr j "inst")
+    return .builtin nm attrs inst
+  if (j.getObjVal? "unknown").isOk then return .unknown
+  throw "bad base"
+
+def pairsOfJson (a : Array Json) : Except String (List (String × Site)) :=
+  a.toList.mapM (fun p => do
+    let pr ← p.getArr?
+    if pr.size ≠ 2 then throw "bad pair"
+    let k ← pr[0]!.getStr?
+    let s ← pr[1]!.getNat?
+    pure (k, s))
+
+def classOfJson (j : Json) : Except String (ClassId × ClassDef) := do
+  let id ← jnat j "id"
+  let bases ← (← jarr j "bases").toList.mapM baseOfJson
+  let body ← pairsOfJson (← jarr j "body")
+  let sa ← pairsOfJson (← jarr j "self")
+  pure (id, ⟨bases, body, sa⟩)
+
+def valToJson : Val → Json
+  | .site s => Json.mkObj [("site", toJson s)]
+  | .builtin nm => Json.mkObj [("builtin", Json.str nm)]
+  | .multi ss => Json.mkObj [("multi", Json.arr (ss.map (fun s => toJson s)).toArray)]
+
+def dictToJson (d : Dict Val) : Json :=
+  Json.arr (d.map (fun p => Json.arr #[Json.str p.1, valToJson p.2])).toArray
+
+def entryToJson : MroEntry → Json
+  | .cls c => Json.mkObj [("cls", toJson c)]
+  | .builtin nm _ => Json.mkObj [("builtin", Json.str nm)]
+
+def handle (j : Json) : Json :=
+  match (do
+    let h ← (← jarr j "h").toList.mapM classOfJson
+    let c ← jnat j "c"
+    pure (h, c) : Except String (Hier × ClassId)) with
+  | .error e => errJson e
+  | .ok (h, c) =>
+    let ac := decide (Acyclic h c)
+    Json.mkObj [
+      ("acyclic", Json.bool ac),
+      ("norepeat", Json.bool (decide (NoRepeatedAncestors h c))),
+      ("mro", Json.arr ((mro h c).map entryToJson).toArray),
+      ("cls", dictToJson (classAttrs h c)),
+      ("inst", dictToJson (instAttrs h c)),
+      ("legacy", dictToJson (instAttrsLegacy h c))]
+
 end SuppModel.Drv.Attrs
